@@ -992,7 +992,8 @@ pub fn request_methods() -> Vec<Option<String>> {
 }
 
 pub fn request_schemes() -> Vec<Option<String>> {
-    [None, Some("http"), Some("https"), Some("ftp"), Some("")]
+    // schemes are compared as written (a proxy reports them in lower case): "HTTP" is another scheme than "http"
+    [None, Some("http"), Some("https"), Some("ftp"), Some(""), Some("HTTP")]
         .iter()
         .map(|h| h.map(|s| s.to_string()))
         .collect()
